@@ -83,6 +83,35 @@ def rle_largest_le(n: int, x0: int, d1: int, d2: int, d3: int, q: int) -> bool:
     return r.largest_le(q) == best
 
 
+def rle_largest_le_large(n: int, d1: int, d2: int, d3: int, qi: int, scale: int) -> bool:
+    """
+    pre: 1 <= n <= 4 and 0 <= scale <= 1
+    pre: 1 <= d1 <= 3 and 1 <= d2 <= 3 and 1 <= d3 <= 3
+    pre: (n >= 2 or d1 == 1) and (n >= 3 or d2 == 1) and (n >= 4 or d3 == 1)
+    pre: 0 <= qi < 3 * n
+    post: _
+    """
+    # widely spaced integers beyond 2**53: the answer must come from integer arithmetic (query = a stored value, one below, one above)
+    n, scale = mark.pick(n, 1, 4), mark.pick(scale, 0, 1)
+    d1 = mark.pick(d1, 1, 3) if n >= 2 else 1
+    d2 = mark.pick(d2, 1, 3) if n >= 3 else 1
+    d3 = mark.pick(d3, 1, 3) if n >= 4 else 1
+    qi = mark.pick(qi, 0, 3 * n - 1)
+    with mark.untraced():
+        base, unit = [(10 ** 15, 3 * 10 ** 15 + 7), (2 ** 60, 2 ** 55 + 1)][scale]
+        xs = [base, base + d1 * unit, base + (d1 + d2) * unit, base + (d1 + d2 + d3) * unit][:n]
+        q = xs[qi // 3] + (qi % 3) - 1
+        if q < xs[0]:
+            return True           # below the first value: outside the documented domain of largest_le
+        r = Rle.create_rle(xs)
+        mark.hit()
+        best = xs[0]
+        for x in xs:
+            if x <= q:
+                best = x
+        return r.largest_le(q) == best
+
+
 def type01_frames(n: int, g1: int, g2: int, g3: int, f0: int, f1: int, f2: int, f3: int, fnum: int) -> bool:
     """
     pre: 1 <= n <= 4
